@@ -2,13 +2,14 @@
   Driver handler for component `ttlo` (property C16, Turtle / TriG statement layer with text offsets:
   `Model.TurtleDocOffsets`).
 
-    ttlo.dec <pkg:turtle|trig> <end:eof|io> <capture 0|1> <columns 0|1> <byte,line,col> <base:x<hex>|-> x<hex bytes>
+    ttlo.dec <pkg:turtle|trig> <end:eof|io> <capture 0|1> <columns 0|1> <dbl 0|1> <byte,line,col> <base:x<hex>|-> x<hex bytes>
       → <stmt>;<stmt>…|<verdict>|<error position>
         stmt    = s,p,o,g@<s>/<p>/<o>/<g>    terms as `ttld.dec` (blank nodes renumbered by first
                   occurrence), range = b.l.c-b.l.c or - (absent)
         verdict = clean | err:<eof|io|syntax|pfx|resolve> | panic | out-of-fuel
         error   = E- | Eb<byte> | Et<b.l.c> | Er<b.l.c>-<b.l.c>
       columns = 0 prints `*` for every column (documents outside `TW.simple`).
+      dbl = 1: the code before patch c16d-1 (`CfgO.dbl`, capture-off byte offset of the hand-back error sites).
     ttlo.erased <pkg> <end> <capture> <base> <bytes>  →  the `ttld.dec` answer computed from the
       instrumented run with sizes / writer / ranges forgotten (run-time cross-check of `doc_erasure`).
 
@@ -21,10 +22,10 @@ import RdfModel.Model.TurtleDocOffsets
 namespace RdfModel.Driver.TtlDocO
 open RdfModel RdfModel.Wire RdfModel.TW RdfModel.NQO RdfModel.TtlDocO RdfModel.Driver.NQO
 
-def cfgOf (pkg : String) : Option CfgO :=
+def cfgOf (pkg : String) (dbl : Bool := false) : Option CfgO :=
   let mk (trig : Bool) (T : Ttl.Tables) : CfgO :=
     { trig := trig, T := T, resolve := Driver.TtlDoc.resolveSafe,
-      isSpace := inRanges Gen.unicodeSpace, pnBase := inRanges T.pnCharsBase }
+      isSpace := inRanges Gen.unicodeSpace, pnBase := inRanges T.pnCharsBase, dbl := dbl }
   if pkg = "turtle" then some (mk false Gen.turtle)
   else if pkg = "trig" then some (mk true Gen.trig)
   else none
@@ -39,8 +40,8 @@ def zipShow (withCols : Bool) (init : Offset) : List String → List StmtO → L
 
 def handle (op : String) (args : List String) : Option String :=
   match op, args with
-  | "dec", [pkg, e, cap, wc, init, base, inp] => do
-    let C ← cfgOf pkg
+  | "dec", [pkg, e, cap, wc, dbl, init, base, inp] => do
+    let C ← cfgOf pkg (dbl = "1")
     let e ← (if e = "eof" then some NQ.End.eof else if e = "io" then some NQ.End.ioerr else none)
     let init ← parseOffset init
     let base ← Driver.TtlDoc.optRunes base
